@@ -146,6 +146,12 @@ def check_sel(run: Run, prog: Program) -> None:
         run.check(s.get("primary_receives", 0) == 1, "C19.SEL", fn.qual, "primary received once",
                   f"the primary stream is received {s.get('primary_receives', 0)} times in one round ({desc})",
                   node=fn.node, file=fn.file, instance=f"{fn.qual}: one primary receive ({desc})")
+        consumed = s.get("fallback_receives", 0) + (1 if "sync_args" in s else 0)
+        run.check(consumed >= 1, "C19.TICK", fn.qual, "the running fallback is read on every tick",
+                  f"a tick completes without reading the running fallback ({desc}): its receiver piles up unread "
+                  "samples, and the primary-error path (`return await fallback.receive()`) then hands back the oldest "
+                  "unread sample - the term lags behind by as many ticks as the primary had been healthy, for ever",
+                  node=fn.node, file=fn.file, instance=f"{fn.qual}: fallback consumed ({desc})")
         if "valid_arg" in s:
             va = s["valid_arg"]
             run.check(isinstance(va, Obj) and va.cls == "v", "C19.SEL", fn.qual, "validity of the primary value",
@@ -494,6 +500,15 @@ def build_controls(prog: Program) -> list[tuple[str, str, str, str, str]]:
     for c in find_calls(fw.node, lambda c: method_call(c, "self", "_is_value_valid"))[:1]:
         txt = seg(fw.module, c)
         add("validity test inverted", STEPS, stmt_patch(fw, c, lambda t, txt=txt: t.replace(txt, f"(not {txt})", 1)), "C19.SEL")
+    for a in (x for x in ast.walk(fw.node) if isinstance(x, (ast.Assign, ast.AnnAssign)) and isinstance(x.value, ast.Await)
+              and isinstance(x.value.value, ast.Call) and method_call(x.value.value, "self", "_synchronize_and_fetch_fallback")):
+        c = a.value.value  # type: ignore[union-attr]
+        first = (list(c.args) + [k.value for k in c.keywords])[0] if (c.args or c.keywords) else None
+        if first is not None:
+            ptxt = seg(fw.module, first)
+            add("healthy primary skips the fallback read", STEPS, stmt_patch(
+                fw, a, lambda t, ptxt=ptxt: f"{indent_of(t)}if self._is_value_valid({ptxt}.value):\n{indent_of(t)}    return {ptxt}\n" + t), "C19.TICK")
+        break
     fn = prog.func(f"{MF}._fetch_next")
     for s_ in fn.node.body:
         if isinstance(s_, ast.If) and not s_.orelse and any(
@@ -524,7 +539,7 @@ def build_controls(prog: Program) -> list[tuple[str, str, str, str, str]]:
         add("tiny fallback receiver", FFM, stmt_patch(
             stt, c, lambda t, txt=txt, c=c: t.replace(txt, seg(stt.module, c.func) + "(max_size=1)", 1)), "C19.BUF")
     if len(out) < 5:
-        raise AnalysisError(f"C19: only {len(out)} of 6 seeded controls could be derived from the source "
+        raise AnalysisError(f"C19: only {len(out)} of 7 seeded controls could be derived from the source "
                             f"({[o[0] for o in out]})")
     return out
 
@@ -540,12 +555,15 @@ def run_rules(run: Run, prog: Program) -> None:
 def check(run: Run, prog: Program, tier: str) -> str:
     run.rule("C19.SEL", "primary iff valid or no synchronised fallback sample; fallback iff invalid and present; "
              "fallback's next sample on primary error; primary received exactly once")
+    run.rule("C19.TICK", "once the fallback runs, every tick reads it (synchronisation call or, on a primary error, its receive): "
+             "the error path relies on the receiver having been drained in lock-step")
     run.rule("C19.ERR", "every receive() is guarded by a catchable ReceiverError handler (two documented terminal sites)")
     run.rule("C19.LAZY", "fallback started only when not running and the primary is invalid (shared predicate) or failed")
     run.rule("C19.SYNC", "fallback samples are never lost; older-test on every call; catch-up loop only advances the fallback")
     run.rule("C19.BUF", "fallback receiver has the default capacity")
     run_rules(run, prog)
     run.floor("C19.SEL", 10)
+    run.floor("C19.TICK", 4)
     run.floor("C19.ERR", 5)
     run.floor("C19.LAZY", 7)
     run.floor("C19.SYNC", 8)
